@@ -93,7 +93,7 @@ ALU = ["ADD %s, %s", "SUB %s, %s", "XOR %s, %s", "AND %s, %s", "OR %s, %s", "MOV
 GP = ["EAX", "EBX", "ECX", "EDX", "ESI"]
 
 
-def gen_body(rng, nblocks=None, fault=None, smc=None):
+def gen_body(rng, nblocks=None, fault=None, smc=None, p_fall=0.3):
     """assembly text of a terminating program: blocks of ALU / memory instructions, each ending with a fuel test and a conditional
     branch to an arbitrary block; EDI accumulates the identities of the executed blocks.
     fault: (block, text of the faulting instruction) inserted in that block; smc: list of (block, patch text) self-modifying stores,
@@ -134,6 +134,11 @@ def gen_body(rng, nblocks=None, fault=None, smc=None):
         if rng.random() < 0.2:
             body.append("    CALL sub")
         lines += body
+        if i + 1 < n and rng.random() < p_fall:
+            # no branch at all: the next label is reached by falling through (it is then both a jump target and an inner
+            # instruction of the block translated from here); such a block has no backward jump, so every cycle still
+            # goes through a fuel test
+            continue
         lines.append("    DEC DWORD PTR [0x%x]" % FUEL)
         lines.append("    JZ end")
         if rng.random() < 0.8:
